@@ -3,7 +3,7 @@ from ..cfg import cfg_of
 from ..facts import span_str
 from ..models import norm
 
-E3_FLOORS = {"C05": 30, "C07": 60, "C03": 6, "C10": 20, "C11": 8, "C13": 8, "C14": 4, "C16": 150, "C17": 1, "C12": 4}
+E3_FLOORS = {"C05": 40, "C07": 500, "C03": 14, "C10": 22, "C11": 12, "C13": 12, "C14": 4, "C16": 500, "C17": 1, "C12": 4}   # ~half of what was counted
 
 
 # =====================================================================================================================
@@ -70,6 +70,21 @@ def _canon(s, repl):
 # =====================================================================================================================
 #  C12: the two-cursor state machines
 # =====================================================================================================================
+_COPY_OUT_RE = None
+
+
+def _norm_copy_out(text):
+    """every spelling of the bitwise copy-out primitive (ptr::read(p), p.read(), read_unaligned, ...) becomes READ(p)"""
+    global _COPY_OUT_RE
+    import re
+    if _COPY_OUT_RE is None:
+        names = ["std::ptr::read", "std::ptr::read_unaligned", "std::ptr::read_volatile", "std::ptr::mut_ptr::<impl *mut T>::read",
+                 "std::ptr::const_ptr::<impl *const T>::read", "std::ptr::NonNull::<T>::read", "std::ptr::NonNull::read"]
+        _COPY_OUT_RE = re.compile("(?:%s|std::ptr::(?:mut_ptr|const_ptr)::<impl \\*(?:mut|const) [^()]*?>::read(?:_unaligned|_volatile)?)(?:::<[^()]*?>)?\\("
+                                  % "|".join(re.escape(n) for n in names))
+    return _COPY_OUT_RE.sub("READ(", text)
+
+
 def cursor_machine(ctx, body, eps):
     """canonical description of a next/next_back body of a cursor ADT, or (None, reason)"""
     r = ctx.roles
@@ -106,19 +121,21 @@ def cursor_machine(ctx, body, eps):
             for f in eps:
                 if ds.endswith("::is_null(*p1.%s.%s)" % (f, raw)):
                     m = ("isnull", f, chosen != 0)
-            if m is None and (" Eq " in ds):
-                fs = sorted(f for f in eps if ("*p1.%s.%s" % (f, raw)) in ds)
+            if m is None and (" Eq " in ds or " Ne " in ds or "PartialEq>::ne(" in ds or "PartialEq::ne(" in ds):
+                import re as _re
+                fs = sorted(f for f in eps if _re.search(r"p1\.%s(?![A-Za-z0-9_])" % _re.escape(f), ds))
                 if fs == sorted(eps):
-                    m = ("meet", None, chosen != 0)
+                    neg = (" Ne " in ds or "::ne(" in ds) != ds.startswith("!")       # `a != b` / `!(a == b)` test the same thing
+                    m = ("meet", None, (chosen == 0) if neg else (chosen != 0))
             if m is None:
                 m = ("other", ds, chosen)
             conds.append(m)
-        rs = show(res.ret)
+        rs = _norm_copy_out(show(res.ret))
         if res.ret[0] == "agg" and res.ret[3] == "None":
             ret = "None"
         elif res.ret[0] == "agg" and res.ret[3] == "Some":
             ent_b = "**p1.%s.%s" % (Y, raw)
-            ent_t = "std::ptr::read::<%s<K, V>>(*p1.%s.%s)" % (r.entry, Y, raw)
+            ent_t = "READ(*p1.%s.%s)" % (Y, raw)
             ok_b = (ent_b + "." + r.E_KEY) in rs and (ent_b + "." + r.E_VAL) in rs
             ok_t = (ent_t + "." + r.E_KEY) in rs and (ent_t + "." + r.E_VAL) in rs
             # key first, value second
@@ -287,14 +304,35 @@ def check_wrappers(ctx, res, cursor_names):
         n += 1
         res.count("C12.2 wrapper methods")
         rs = te.all_results(b, max_paths=8)
-        good = len(rs) == 1
+        good = 1 <= len(rs) <= 4
         why = []
-        if good:
+        if not good:
+            why.append("%d paths" % len(rs))
+        # (1) on every path exactly one step of the wrapped iterator, in the same direction, on a field of self
+        for pr in rs:
+            steps = [(full, argt) for (_bb, full, argt, _val, _c) in pr.calls
+                     if " as std::iter::Iterator>::next" in full or " as std::iter::DoubleEndedIterator>::next_back" in full]
+            if len(steps) != 1:
+                good = False
+                why.append("a path steps the wrapped iterator %d times" % len(steps))
+                continue
+            full, argt = steps[0]
+            called = "next_back" if "::next_back" in full else "next"
+            if called != b.name:
+                good = False
+                why.append("`%s` delegates to the wrapped iterator's `%s`" % (b.name, called))
+            a0 = show(argt[0])
+            if not a0.startswith("&*p1.") and not a0.startswith("&p1."):
+                good = False
+                why.append("delegates on `%s`, not on a field of self" % a0[:60])
+        # (2) the projected component, where the wrapper has the recognisable shape inner.map(|pair| pair.N); in any other shape
+        #     (`?`, match, a named fn) the component is forced by parametricity: the item types K and V are distinct type
+        #     parameters, so a value of the item type can only come from the matching component of the wrapped item
+        if len(rs) == 1:
             t = rs[0].ret
-            inner = t
             proj = None
+            recognised = False
             if t[0] == "call" and "Option" in t[1] and "::map" in t[1]:
-                inner = t[2][0]
                 clos = t[2][1]
                 if clos[0] == "closure":
                     cb = ctx.facts.body(clos[1])
@@ -302,24 +340,11 @@ def check_wrappers(ctx, res, cursor_names):
                     if len(cr) == 1:
                         ps = show(cr[0].ret)
                         if ps in ("p2.0", "&p2.0", "*p2.0"):
-                            proj = 0
+                            proj, recognised = 0, True
                         elif ps in ("p2.1", "&p2.1", "*p2.1"):
-                            proj = 1
-                        else:
-                            why.append("projection closure returns `%s`" % ps)
-            if not (inner[0] == "call" and (" as std::iter::Iterator>::next" in inner[1] or " as std::iter::DoubleEndedIterator>::next_back" in inner[1])):
-                good = False
-                why.append("does not delegate to the wrapped iterator: `%s`" % show(inner)[:120])
-            else:
-                called = "next_back" if "::next_back" in inner[1] else "next"
-                if called != b.name:
-                    good = False
-                    why.append("`%s` delegates to the wrapped iterator's `%s`" % (b.name, called))
-                # argument: a field of self
-                if not show(inner[2][0]).startswith("&*p1.") and not show(inner[2][0]).startswith("&p1."):
-                    good = False
-                    why.append("delegates on `%s`, not on a field of self" % show(inner[2][0])[:60])
-            # expected projection from the item type
+                            proj, recognised = 1, True
+            elif t[0] == "call" and (" as std::iter::Iterator>::next" in t[1] or " as std::iter::DoubleEndedIterator>::next_back" in t[1]):
+                recognised = True
             out = b.j["output"]
             item = out["args"][0] if out.get("k") == "adt" and out.get("args") else None
             gens = [g["name"] for g in a["generics"] if g["kind"] == "type"]
@@ -332,16 +357,13 @@ def check_wrappers(ctx, res, cursor_names):
                     want = 0 if core["name"] == gens[0] else (1 if core["name"] == gens[1] else None)
                 elif core.get("k") == "tuple":
                     want = "pair"
-            if want == "pair":
-                if proj is not None:
+            if recognised:
+                if want == "pair" and proj is not None:
                     good = False
                     why.append("item is the pair but a component is projected")
-            elif want in (0, 1):
-                if proj != want:
+                elif want in (0, 1) and proj != want:
                     good = False
                     why.append("item type is the %s but component .%s is projected" % ("key" if want == 0 else "value", proj))
-        else:
-            why.append("%d paths" % len(rs))
         res.oblige("C12.2 `%s` delegates `%s` to the same direction of the wrapped iterator and yields the right component" % (b.path, b.name),
                    good and not why, detail=why, key="C12.2:%s:delegation" % b.path, loc=span_str(b.span), rule="C12.2 wrapper delegation",
                    msg="`%s`: %s" % (b.path, "; ".join(why)))
@@ -449,6 +471,16 @@ def c15(ctx, res):
     if b is None or b.vis != "pub":
         res.violate("C15:anchor-missing:retain", "pub fn retain not found", None, {}, "anchors")
         return
+    # the loop body may have been extracted into a private helper that receives the predicate: judge retain with such helpers inlined
+    if not any(c.user_kind == "closure" for c in ctx.cg.calls.get(b.path, [])):
+        from ..inline import derive
+
+        def calls_predicate(tg):
+            return any(c.user_kind == "closure" for (_p, c) in ctx.eff.trans(tg, include_drops=False)["user"])
+        b2, inl = derive(ctx, b, calls_predicate, depth=2)
+        if inl:
+            res.note("C15: retain judged with %s inlined" % ", ".join(x.split("::")[-1] for x in inl))
+            b = b2
     te = _te(ctx, True)
     try:
         paths = te.paths(b, max_visits=2, max_paths=200)
@@ -474,8 +506,10 @@ def c15(ctx, res):
             continue
         # first test: cursor0 != seal
         d0, ch0 = conds[0]
-        is_ne = "PartialEq>::ne(" in d0
-        is_eq = "PartialEq>::eq(" in d0 or " Eq " in d0
+        is_ne = "PartialEq>::ne(" in d0 or " Ne " in d0
+        is_eq = ("PartialEq>::eq(" in d0 or " Eq " in d0) and not is_ne
+        if d0.startswith("!"):
+            is_ne, is_eq = is_eq, is_ne          # `!(a == b)` tests what `a != b` tests
         if not ((is_ne or is_eq) and (cur0 in d0) and (seal in d0)):
             probs.append("the loop is not controlled by comparing the handle read from the seal's LRU link with the seal: `%s`" % d0[:160])
             continue
@@ -668,11 +702,22 @@ def _variant_payload_has_entry(r, ty, idx):
     args = [a for a in ty.get("args", []) if a.get("k") not in ("region", "const")]
     if n == "std::option::Option":
         return idx == 1 and r.contains_entry_by_value(args[0])
-    if n in ("std::result::Result", "std::ops::ControlFlow"):
+    if n == "std::result::Result":
         if idx < len(args):
             return r.contains_entry_by_value(args[idx])
         return False
+    if n == "std::ops::ControlFlow":
+        # ControlFlow<B, C>: Continue(C) is variant 0, Break(B) is variant 1
+        if idx in (0, 1) and len(args) == 2:
+            return r.contains_entry_by_value(args[1 - idx])
+        return False
     return True
+
+
+def _variant_count(ty):
+    if ty.get("k") == "adt" and ty["name"] in ("std::option::Option", "std::result::Result", "std::ops::ControlFlow"):
+        return 2
+    return None
 
 
 def entry_linearity(ctx, b):
@@ -783,7 +828,14 @@ def entry_linearity(ctx, b):
                     if not _variant_payload_has_entry(r, b.local_ty(src["l"]), val):
                         H2.discard(src["l"])
                 outs.append((tb, H2))
-            outs.append((t["otherwise"], set(H)))
+            Ho = set(H)
+            if src is not None and src["l"] in elocals and not src["p"]:
+                # the otherwise edge stands for the variants not listed: if none of them carries an entry, nothing is held there
+                nv = _variant_count(b.local_ty(src["l"]))
+                listed = set(v for (v, _tb) in t["targets"])
+                if nv is not None and not any(_variant_payload_has_entry(r, b.local_ty(src["l"]), i) for i in range(nv) if i not in listed):
+                    Ho.discard(src["l"])
+            outs.append((t["otherwise"], Ho))
         elif k == "return":
             for x in H:
                 if x != 0:
@@ -803,6 +855,68 @@ def entry_linearity(ctx, b):
                 if s2 not in work:
                     work.append(s2)
     return leaks, len(elocals)
+
+
+def _teardown_probs(ctx, b, what, sinks):
+    r, cg, eff = ctx.roles, ctx.cg, ctx.eff
+    g = cfg_of(b)
+    d = eff.direct[b.path]
+    drains = [c for (cls, c) in d["table"] if cls in ("drain", "into_iter")]
+    nexts = [c for (cls, c) in d["table"] if cls == "iter_next"]
+    sinkc = [c for c in cg.calls.get(b.path, []) if c.target is not None and c.target in sinks]
+    probs = []
+    if not drains or not nexts:
+        probs.append("does not iterate a drain of the table")
+    if not sinkc:
+        probs.append("yielded entries are not handed to a sink")
+    loops = g.loops()
+    if drains and nexts and sinkc:
+        lh = [h for h, blocks in loops.items() if nexts[0].bb in blocks and sinkc[0].bb in blocks]
+        if not lh:
+            probs.append("the sink is not applied inside the drain loop")
+        elif not g.all_paths_pass(0, g.return_blocks(), lh):
+            probs.append("a path returns without draining")
+    frees = d["free"] + [c for c in cg.calls.get(b.path, []) if c.target is not None and eff.direct[c.target.path]["free"]]
+    if what.startswith("Drop"):
+        if len(frees) != 1:
+            probs.append("the seal is freed %d times" % len(frees))
+        elif drains and nexts:
+            lh2 = [h for h, blocks in loops.items() if nexts[0].bb in blocks]
+            if lh2 and not g.dominates(lh2[0], frees[0].bb):
+                probs.append("the seal is freed before the table was drained")
+    elif frees:
+        probs.append("clear frees the seal")
+    return probs
+
+
+def _named_primitives(ctx):
+    """bodies that rules look for by role and that therefore are never inlined away"""
+    if hasattr(ctx, "_named_prims"):
+        return ctx._named_prims
+    r, eff = ctx.roles, ctx.eff
+    out = set()
+    ins, outs = list_primitives(ctx)
+    out |= set(x.path for x in ins) | set(x.path for x in outs)
+    out |= set(x.path for x in hash_functions(ctx))
+    for b in ctx.facts.bodies:
+        d = eff.direct.get(b.path)
+        if d is None:
+            continue
+        if d["copy_out"] or d["free"]:
+            out.add(b.path)
+        ins_ = b.j.get("inputs") or []
+        if ins_ and r.is_entry_ty(ins_[0]) and b.impl_self and b.impl_self.get("name") == r.entry:
+            out.add(b.path)      # sinks / by-value entry methods
+        if b.impl_self and b.impl_self.get("name") in (r.entry, r.eptr):
+            out.add(b.path)      # the node / handle API
+    ctx._named_prims = out
+    return out
+
+
+def derive_inlined(ctx, b, depth=2):
+    from ..inline import derive
+    prims = _named_primitives(ctx)
+    return derive(ctx, b, lambda tg: tg.path not in prims and not tg.is_closure, depth=depth)
 
 
 def c06(ctx, res):
@@ -860,7 +974,7 @@ def c06(ctx, res):
     # ---- 3./4. copy-out primitive and clear_no_drop only where the protocol is completed
     co = copy_out_adts(ctx)
     hs = holders_of(ctx, co)
-    for p, d in eff.direct.items():
+    for p, d in [(p_, d_) for (p_, d_) in eff.direct.items() if "#inl" not in p_]:
         body = ctx.facts.body(p)
         if body is None:
             continue
@@ -879,6 +993,26 @@ def c06(ctx, res):
                 why = "" if okc else "a path from the copy-out to a return skips emptying the source table without dropping"
             else:
                 why = "bitwise copy-out outside an owning iterator or a relocation"
+                # the copying loop may have been extracted from the relocation: judge every caller with this body inlined
+                from ..inline import derive
+                callers = [cc.body for cc in cg.callers_of(p) if cc.body is not None and not cc.body.is_closure]
+                ok_all = bool(callers)
+                for X in callers:
+                    X2, inl = derive(ctx, X, lambda tg, _p=p: tg.path == _p, depth=1)
+                    d2 = eff.direct.get(X2.path)
+                    if not inl or d2 is None:
+                        ok_all = False
+                        break
+                    g2 = cfg_of(X2)
+                    co2 = [c2 for c2 in cg.calls.get(X2.path, []) if c2.target is not None and eff.direct[c2.target.path]["copy_out"]]
+                    clears2 = [cc.bb for (cls, cc) in d2["table"] if cls == "clear"]
+                    if not (d2["swap_table"] and clears2 and any(cls in ("insert", "insert_grow") for (cls, _c) in d2["table"]) and co2
+                            and all(g2.all_paths_pass(c2.bb, g2.return_blocks(), clears2) for c2 in co2)):
+                        ok_all = False
+                        break
+                if ok_all:
+                    okc, why = True, ""
+                    res.note("C06.3 copy-out in `%s`: judged inlined into %s" % (p, ", ".join(x.path for x in callers)))
             res.oblige("C06.3 copy-out in `%s` is completed by marking the source table empty without dropping" % p, okc, detail=why,
                        key="C06.3:%s:copy-out-protocol" % p, loc=c.loc, rule="C06.3 copy-out protocol",
                        msg="`%s` copies an entry out bitwise (%s): %s -- the source slot would be dropped again" % (p, c.callee, why))
@@ -888,7 +1022,8 @@ def c06(ctx, res):
             prim = False
             try:
                 rs_ = te.all_results(body, max_paths=3)
-                prim = len(rs_) == 1 and rs_[0].ret[0] == "call" and norm(rs_[0].ret[1]) in ("std::ptr::read", "hashbrown::raw::Bucket::read") \
+                prim = len(rs_) == 1 and rs_[0].ret[0] == "call" and \
+                    (norm(rs_[0].ret[1]) == "hashbrown::raw::Bucket::read" or _norm_copy_out(show(rs_[0].ret)).startswith("READ(")) \
                     and not rs_[0].stores and body.arg_count == 1
             except TooComplex:
                 prim = False
@@ -910,38 +1045,20 @@ def c06(ctx, res):
             res.violate("C06.4:anchor-missing:%s" % what, "%s not found" % what, None, {}, "anchors")
             continue
         res.count("C06.4 cache teardown paths")
-        g = cfg_of(b)
-        d = eff.direct[b.path]
-        drains = [c for (cls, c) in d["table"] if cls in ("drain", "into_iter")]
-        nexts = [c for (cls, c) in d["table"] if cls == "iter_next"]
-        sinkc = [c for c in cg.calls.get(b.path, []) if c.target is not None and c.target in sinks]
-        probs = []
-        if not drains or not nexts:
-            probs.append("does not iterate a drain of the table")
-        if not sinkc:
-            probs.append("yielded entries are not handed to a sink")
-        loops = g.loops()
-        if drains and nexts and sinkc:
-            lh = [h for h, blocks in loops.items() if nexts[0].bb in blocks and sinkc[0].bb in blocks]
-            if not lh:
-                probs.append("the sink is not applied inside the drain loop")
-            elif not g.all_paths_pass(0, g.return_blocks(), lh):
-                probs.append("a path returns without draining")
-        frees = d["free"] + [c for c in cg.calls.get(b.path, []) if c.target is not None and eff.direct[c.target.path]["free"]]
-        if what.startswith("Drop"):
-            if len(frees) != 1:
-                probs.append("the seal is freed %d times" % len(frees))
-            elif drains and nexts:
-                lh2 = [h for h, blocks in loops.items() if nexts[0].bb in blocks]
-                if lh2 and not g.dominates(lh2[0], frees[0].bb):
-                    probs.append("the seal is freed before the table was drained")
-        elif frees:
-            probs.append("clear frees the seal")
+        probs = _teardown_probs(ctx, b, what, sinks)
+        if probs:
+            # the drain loop may live in a private helper: judge the body with its helpers inlined before reporting
+            b2, inl = derive_inlined(ctx, b)
+            if inl:
+                probs2 = _teardown_probs(ctx, b2, what, sinks)
+                if not probs2:
+                    res.note("C06.4 %s: judged with %s inlined" % (what, ", ".join(x.split("::")[-1] for x in inl)))
+                    probs = []
         res.oblige("C06.4 %s drains the table through a sink on every path%s" % (what, " and frees the seal once, afterwards" if what.startswith("Drop") else ""),
                    not probs, detail=probs, key="C06.4:%s" % b.path, loc=span_str(b.span), rule="C06.4 tables emptied through sinks",
                    msg="%s: %s" % (what, "; ".join(probs)))
     # seal free / alloc sites
-    freers = [p for p, d in eff.direct.items() if d["free"]]
+    freers = [p for p, d in eff.direct.items() if d["free"] and "#inl" not in p]
     callers = [c.body.path for p in freers for c in cg.callers_of(p)]
     drop_b = r.trait_method("std::ops::Drop", "drop")
     okf = all(x == (drop_b.path if drop_b else None) for x in callers)
@@ -979,6 +1096,22 @@ def hash_functions(ctx):
     return [b for b in ctx.facts.bodies if ctx.eff.direct[b.path]["hash"] and b.j.get("output", {}).get("s") == "u64"]
 
 
+def _te_c04(ctx):
+    """term evaluator for the hash/eq agreement rules: wrappers are inlined (a helper that only forwards to the key-hash function, an
+    accessor), the key-hash functions and the key-equivalence closure factories themselves stay named calls"""
+    if not hasattr(ctx, "_te_c04"):
+        te = TermEval(ctx.facts, ctx.cg, inline=True)
+        te.no_inline = set(b.path for b in hash_functions(ctx)) | set(b.path for b in ctx.facts.bodies if b.is_closure)
+        for b in ctx.facts.bodies:
+            try:
+                if not b.is_closure and b.j.get("output", {}).get("k") in ("closure", "opaque", "alias") and _is_eq_factory(ctx, b):
+                    te.no_inline.add(b.path)
+            except Exception:
+                pass
+        ctx._te_c04 = te
+    return ctx._te_c04
+
+
 def c04(ctx, res, only_hash_agreement=False):
     r, cg, eff = ctx.roles, ctx.cg, ctx.eff
     te = _te(ctx, False)
@@ -1014,14 +1147,15 @@ def c04(ctx, res, only_hash_agreement=False):
         tcalls = [c for c in cg.calls.get(b.path, []) if c.model and c.model.get("table") in ("find", "remove", "insert", "insert_grow")]
         if not tcalls:
             continue
+        tec = _te_c04(ctx)
         try:
-            paths = te.paths(b, max_paths=60)
+            paths = tec.paths(b, max_paths=60)
         except TooComplex:
             res.violate("C04.1:%s:too-complex" % b.path, "too many paths", span_str(b.span), {}, "C04.1")
             continue
         seen = set()
         for p in paths:
-            pr = te.eval_path(b, p)
+            pr = tec.eval_path(b, p)
             for (bb, full, argt, val, c) in pr.calls:
                 if c is None or not (c.model and c.model.get("table") in ("find", "remove", "insert", "insert_grow")):
                     continue
@@ -1081,13 +1215,14 @@ def c04(ctx, res, only_hash_agreement=False):
                 continue
             res.count("C04.1 hash-passing call sites")
             probs = []
+            tec = _te_c04(ctx)
             try:
-                hp_paths = te.paths(b, max_paths=400, max_visits=2)       # (one unrolled iteration: the call may sit in a loop body)
+                hp_paths = tec.paths(b, max_paths=400, max_visits=2)       # (one unrolled iteration: the call may sit in a loop body)
             except TooComplex:
-                hp_paths = te.paths(b, max_paths=60)
+                hp_paths = tec.paths(b, max_paths=60)
             reached = False
             for p in hp_paths:
-                pr = te.eval_path(b, p)
+                pr = tec.eval_path(b, p)
                 for (bb, full, argt, val, cc) in pr.calls:
                     if cc is not c:
                         continue
@@ -1211,9 +1346,14 @@ def _hash_key(h, hnames, owner, r, probs, allow_closure=False):
 
 
 def _same_key(a, b):
-    """b is `X::key(&E)` and a is the raw key value E was built from"""
+    """b is `X::key(&E)` (or, with the accessor inlined, `&E.key`) and a is the raw key value E was built from"""
     if b[0] == "call" and norm(b[1]).endswith("::key") and b[2]:
         return _key_of(a, b[2][0])
+    bt = strip_refs(b)
+    while bt[0] == "call" and ("assume_init_ref" in bt[1] or "assume_init_mut" in bt[1]) and len(bt[2]) == 1:
+        bt = strip_refs(bt[2][0])
+    if bt[0] == "field" and str(bt[2]).lower().endswith("key"):
+        return _key_of(a, bt[1])
     return False
 
 
@@ -1225,6 +1365,17 @@ def _key_of(key_term, entry_term):
         while k[0] == "agg" and k[1] == "tuple":
             k = k[4][0][1]
         return strip_refs(k) == e or show(e) in show(k)
+    # accessor inlined: assume_init_ref(&E.key) / &E.key
+    kt = strip_refs(key_term)
+    while kt[0] == "call" and ("assume_init_ref" in kt[1] or "assume_init_mut" in kt[1]) and len(kt[2]) == 1:
+        kt = strip_refs(kt[2][0])
+    if kt[0] == "field" and str(kt[2]).lower().endswith("key") and (strip_refs(kt[1]) == e or show(strip_refs(kt[1])) == show(e)):
+        return True
+    # the entry is an aggregate built in this body: the hashed value is the value its key field was built from
+    if e[0] == "agg" and e[1] == "adt":
+        for (fname, fval) in e[4]:
+            if str(fname).lower().endswith("key") and (strip_refs(fval) == kt or show(strip_refs(fval)) == show(kt)):
+                return True
     ks = show(strip_refs(key_term))
     if key_term[0] in ("param", "field", "deref", "ref") and ks in show(entry_term) and ks != show(e):
         return True     # the raw key value from which the entry was built
@@ -1236,21 +1387,59 @@ def _key_of(key_term, entry_term):
 # =====================================================================================================================
 #  C05: list primitives and who may promote
 # =====================================================================================================================
+def _reads_both_links(ctx, b):
+    r = ctx.roles
+    read = set()
+    for bl in b.blocks:
+        for st_ in bl["stmts"]:
+            if st_["k"] != "assign":
+                continue
+            rv = st_["rv"]
+            pls = []
+            if rv["k"] == "use" and rv["op"].get("k") in ("copy", "move"):
+                pls.append(rv["op"]["place"])
+            elif rv["k"] in ("ref", "rawptr", "copyforderef"):
+                pls.append(rv["place"])
+            for pl in pls:
+                for e in pl.get("p", []):
+                    if e["k"] == "field" and e.get("n") in r.links and e.get("of") == r.entry:
+                        read.add(e["n"])
+    return len(read) >= 2
+
+
 def list_primitives(ctx):
-    """(splice_in bodies, unlink bodies): small bodies whose only effects are 4 resp. 2 link stores through pointers"""
+    """(splice-in bodies, unlink bodies).  splice-in: a loop-free body whose only effects are 4 link stores through pointers.
+    unlink: a loop-free body that reads both links of a node and performs -- itself or through helpers it calls -- exactly 2 link
+    stores through pointers (a helper that merely stores two links it is handed is not a primitive of its own)."""
+    if hasattr(ctx, "_list_prims"):
+        return ctx._list_prims
     r, eff = ctx.roles, ctx.eff
     ins, outs = [], []
     for b in ctx.facts.bodies:
         d = eff.direct[b.path]
-        n = sum(1 for (f, _b, _s, via) in d["w_entry"] if via and f in r.links)
         if b.is_closure or cfg_of(b).loops() or d["table"] or d["swap_table"] or d["w_cache"]:
             continue
+        n = sum(1 for (f, _b, _s, via) in d["w_entry"] if via and f in r.links)
         if n == 4:
             ins.append(b)
-        elif n == 2 and not any(c.model and c.model.get("table") == "new" for c in ctx.cg.calls.get(b.path, [])) \
+            continue
+        tr = eff.trans(b, include_drops=False)
+        nt = sum(1 for (_p, (f, _b, _s, via)) in tr["w_entry"] if via and f in r.links)
+        if nt == 2 and not tr["table"] and not tr["swap_table"] and not tr["w_cache"] and _reads_both_links(ctx, b) \
+                and not any(c.model and c.model.get("table") == "new" for c in ctx.cg.calls.get(b.path, [])) \
                 and not any(norm(c.resolved or c.nominal).startswith("std::boxed::Box") for c in ctx.cg.calls.get(b.path, [])):
             outs.append(b)
+    ctx._list_prims = (ins, outs)
     return ins, outs
+
+
+def _te_stores(ctx):
+    """term evaluator that also inlines single-path helpers which store (their stores are expressed in the caller's terms)"""
+    if not hasattr(ctx, "_te_st"):
+        te = TermEval(ctx.facts, ctx.cg, inline=True)
+        te.inline_stores = True
+        ctx._te_st = te
+    return ctx._te_st
 
 
 def c05(ctx, res):
@@ -1288,7 +1477,7 @@ def c05(ctx, res):
                    loc=span_str(b.span), rule="C05.3 list primitives", msg="`%s`: %s" % (b.path, "; ".join(why)))
     for b in outs:
         res.count("C05.3 list primitives")
-        rs = te.all_results(b, max_paths=3)
+        rs = _te_stores(ctx).all_results(b, max_paths=3)
         good = len(rs) == 1
         why = []
         if good:
@@ -1408,7 +1597,7 @@ def c14(ctx, res):
         sl = fields.get(r.SEAL, "")
         if "p1." in sl:
             probs.append("the clone's seal derives from the source (`%s`)" % sl[:80])
-        conds = [(show(d), ch) for (d, ch, _bb) in pr.conds if "PartialEq" in show(d)]
+        conds = [(show(d), ch) for (d, ch, _bb) in pr.conds if "PartialEq" in show(d) or " Eq " in show(d) or " Ne " in show(d)]
         if not conds:
             probs.append("no traversal loop")
             continue
